@@ -32,6 +32,15 @@ pub fn key_alphabet(tier: Tier) -> Vec<BigUint> {
         secp::from_be(&hex::decode("c0ffee254729296a45a3885639ac7e10f9d54979a0f5b2d1e8b1c4a7d3f6e5b9").unwrap()),
         secp::from_be(&hex::decode("0000000000000000000000000000000000000000000000000000000012345678").unwrap()),
     ];
+    // byte-pattern keys: leading 0x80, leading 0x00, 0x80 in the middle, every byte 0x80
+    for h in [
+        "80b1f6a3c2d4e5f60718293a4b5c6d7e8f90a1b2c3d4e5f60718293a4b5c6d7e",
+        "0000a3c2d4e5f60718293a4b5c6d7e8f90a1b2c3d4e5f60718293a4b5c6d7e8f",
+        "11223344556677889900aabbccddee80ff00112233445566778899aabbccdd01",
+        "8080808080808080808080808080808080808080808080808080808080808080",
+    ] {
+        v.push(secp::from_be(&hex::decode(h).unwrap()));
+    }
     if tier.is_thorough() {
         v.push(((one.clone() << 255) - BigUint::from(19u32)) % &n);
         v.push(secp::from_be(&hex::decode("e3b0c44298fc1c149afbf4c8996fb92427ae41e4649b934ca495991b7852b855").unwrap()) % &n);
@@ -56,6 +65,7 @@ fn lib_key(d: &BigUint, compressed: bool) -> PrivateKey {
     PrivateKey::from_bytes(&secp::be32(d)).expect("alphabet key").compress_public_key(compressed)
 }
 
+const LONG_LENS: [usize; 9] = [4095, 4097, 16385, 65535, 65537, 70000, 131073, (1 << 20) + 4097, 1_500_000];
 const MSG_LENS: [usize; 13] = [0, 1, 31, 32, 33, 55, 56, 63, 64, 65, 119, 120, 1000];
 
 fn digest_of(hash: u64, msg: &[u8]) -> [u8; 32] {
@@ -207,6 +217,25 @@ pub fn spaces(tier: Tier) -> Vec<Space> {
                         }
                     }
                 }
+                Ok(Err(e)) => acc.violate("C05/sign_with_deterministic_k/kind=spurious-error", case.idx, case.json(input), e.to_string()),
+                Err(p) => acc.violate(format!("C05/sign_with_deterministic_k/kind=panic@{}", panic_site(&p)), case.idx, case.json(input), p),
+            }
+        }));
+    }
+    // 1b. long messages (interior lengths far beyond the block sizes): deterministic signing equals the reference
+    {
+        let kt = kt.clone();
+        v.push(Space::new("long-messages", LONG_LENS.len() as u64 * 2 * 2, move |case, acc| {
+            let c = coords(case.idx, &[LONG_LENS.len() as u64, 2, 2]);
+            let (d, q) = (&kt.d[8 % kt.d.len()], &kt.q[8 % kt.q.len()]);
+            let msg = pattern(2, LONG_LENS[c[0] as usize]);
+            let (hash, compressed) = (c[1], c[2] == 0);
+            acc.evaluations += 1;
+            acc.transitions += 1;
+            let input = json!({"key": hx(&secp::be32(d)), "msg_len": msg.len(), "hash": hash, "compressed": compressed});
+            let digest = digest_of(hash, &msg);
+            match guard(|| ECDSA::sign_with_deterministic_k(&lib_key(d, compressed), &msg, signing_hash(hash), true)) {
+                Ok(Ok(sig)) => check_signature(acc, case, "sign_with_deterministic_k", &input, &sig, q, d, compressed, Some((&msg, hash)), &digest, reference_deterministic(d, &digest, true)),
                 Ok(Err(e)) => acc.violate("C05/sign_with_deterministic_k/kind=spurious-error", case.idx, case.json(input), e.to_string()),
                 Err(p) => acc.violate(format!("C05/sign_with_deterministic_k/kind=panic@{}", panic_site(&p)), case.idx, case.json(input), p),
             }
